@@ -429,7 +429,8 @@ def search(ctx):
     for d in db():
         for (p, n) in payloads(d, rng, ctx.n(1, 6), ctx.n(1, 6)):
             emit(_check_json({"kind": "json", "pgn": d["PGN"], "payload": p.to_bytes(n, "little").hex(),
-                              "net": rng.random() < 0.5, "claim": rng.random() < 0.5, "src": rng.choice([1, 4])}))
+                              "net": rng.random() < 0.5, "claim": rng.random() < 0.5, "src": rng.choice([1, 4, 0, 255]),
+                              "dst": rng.choice([255, 255, 0, 17, 254]), "prio": rng.choice([0, 2, 7])}))
     for d, p, n in _nan_payloads(rng):
         emit(_check_json({"kind": "json", "pgn": d["PGN"], "payload": p.to_bytes(n, "little").hex()}))
     emit(_check_json(nan_witness()))
@@ -444,6 +445,20 @@ def search(ctx):
                  (U.random_prefs(rng) if rng.random() < 0.3 else {}))
         emit(_check_dump({"kind": "dump", "dump_pgns": dump_pgns, "net": rng.random() < 0.5, "lines": lines,
                           "prefs": {k.name: v for k, v in prefs.items()}}))
+    # mixed filters built from what the history really returns: one message kind listed by number, ANOTHER by id
+    # (any letter case) — each must be dumped
+    for it in range(ctx.n(12, 100)):
+        lines, _ids, _pgns = _history(rng, rng.randint(10, 30))
+        lines = [ln for ln in lines if not ln.split(",")[2] == "60928" or ln.split(",")[5] == "8"]
+        _dec, ret, _t = _run_real(lines, False, [], False, {})
+        kinds = sorted({(m.PGN, m.id) for m in ret})
+        if len({k[0] for k in kinds}) < 2:
+            continue
+        a = rng.choice(kinds)
+        b = rng.choice([k for k in kinds if k[0] != a[0]])
+        bid = "".join(ch.upper() if rng.random() < 0.5 else ch.lower() for ch in b[1])
+        cfgs = [[a[0], bid], [bid, a[0]], [a[0], bid, 999999, "noSuchId"]]
+        emit(_check_dump({"kind": "dump", "dump_pgns": cfgs[it % 3], "net": rng.random() < 0.5, "lines": lines, "prefs": {}}))
     return out
 
 
